@@ -81,14 +81,17 @@ def run(rep, tier):
     wd = work_dir("C09", "run", clean=True)
     sfx = "small" if quick else "deep"
     rep.rule = ("TLC enumerates the input space of first_order_match: every well-typed pattern with schematic variables of depth <= %d "
-                "(size-capped) over a signature with first-order, predicate/function and polymorphic schematic variables, plus ~30 deeper "
-                "shapes (Miller patterns under 1-2 binders, repeated variables, polymorphic, non-pattern applications, redexes); for each, "
-                "every small instantiation gives a positive target (normalised, raw, eta-contracted, eta-expanded), every one-atom "
-                "perturbation a negative one, plus unrelated terms of all types; given instantiations empty / partial / full / foreign / "
-                "inconsistent. Each vector is replayed with clashing and with distinct binder names, and through first_order_match_list; "
-                "plus seeded random larger inputs (library theorems as patterns). Non-trivial = the call succeeded and Matches/Extends were "
-                "evaluated, or it failed on a first-order pattern and the brute-force completeness oracle was evaluated; distinct by full "
-                "event content." % (2 if quick else 3))
+                "(size-capped) over a signature with first-order, predicate/function and polymorphic schematic variables, ~35 deeper "
+                "shapes (Miller patterns under 1-2 binders, nested binders with the same body at two depths, repeated variables, polymorphic, "
+                "non-pattern applications, redexes) and all mixed-argument applications (a schematic head applied to every selection and "
+                "order of distinct bound variables of %s enclosing binders and first-order schematic variables, bare and guarded by an earlier "
+                "occurrence); for each, every small instantiation gives a positive target (normalised, raw, eta-contracted, eta-expanded, "
+                "and as a ground pattern against itself), every one-atom perturbation a negative one, plus unrelated terms of all types; "
+                "given instantiations empty / partial / argument variables only / full / foreign / inconsistent. Each vector is replayed "
+                "with clashing and with distinct binder names, with targets built with maximal sharing of equal sub-term objects, and "
+                "through first_order_match_list; plus seeded random larger inputs (library theorems as patterns). Non-trivial = the call "
+                "succeeded and Matches/Extends were evaluated, or it failed on a first-order pattern and the brute-force completeness "
+                "oracle was evaluated; distinct by full event content." % (2 if quick else 3, "2" if quick else "2-3"))
     rep.assumptions = ["beta-eta equality decided by comparing beta-eta normal forms of well-typed nameless terms (reference algebra lib/HolTerms.tla, "
                        "itself checked against finite-model semantics by C03)",
                        "completeness claimed only for first-order beta-normal patterns and LITERAL instances (the weakest reading of the property)",
